@@ -23,7 +23,7 @@ OWN = {
     'search': {'C02', 'C16', 'C19'}, 'and': {'C02', 'C16', 'C19'}, 'or': {'C02', 'C16', 'C19'}, 'len': {'C02'},
     'collect': {'C02', 'C13', 'C20'}, 'one': {'C02', 'C13', 'C20'},
     'sdel': {'C02', 'C01'}, 'aidx': {'C13'},
-    'flush1': {'C10', 'C01'}, 'flush1c': {'C10', 'C04', 'C01'}, 'expects': {'C02', 'C19'},
+    'snapcheck': {'C05'}, 'flush1': {'C10', 'C01'}, 'flush1c': {'C10', 'C04', 'C01'}, 'expects': {'C02', 'C19'},
     'commit': {'C10', 'C04'}, 'flushall': {'C10'}, 'flushallc': {'C10', 'C04'}, 'close': {'C10', 'C04'},
     'reopen': {'C04'}, 'control': {'C11', 'C05'}, 'repair': {'C11', 'C05'}, 'schema': {'C11', 'C19', 'C17'},
     'tick': {'C10'}, 'drop': {'C01'}, 'failat': {'C06'},
